@@ -6,7 +6,7 @@
    The per-protocol send->receive round trips are theorems about the packet models of Model.v
    (sender's datagram = what the node passes to sendto; receiver = node with one registered handler). *)
 From OlaBase Require Import Bytes.
-From C07 Require Import Gen Model ModelNet2 ListLemmas RleProofs RleMore NetProofs NetProofs2.
+From C07 Require Import Gen Model ModelNet2 ModelStream ListLemmas RleProofs RleMore NetProofs NetProofs2 StreamProofs.
 Local Open Scope N_scope.
 
 (* the constants the statements below spell out as literals *)
@@ -128,6 +128,25 @@ Theorem c07_e131_roundtrip : forall rev2 cid name priority seq universe f ignore
 Proof. exact e131_roundtrip. Qed.
 Print Assumptions c07_e131_roundtrip.
 
+(* E1.31 stream lifecycle (revision 3 framing, the only one with a stream-terminated option), with a
+   receiver that keeps its source-tracking state (sequence numbers, active priority) over the whole
+   history: for every universe 1..65534, priority 0..200, CID and source name, any receiver buffer to
+   start with, ANY number of frames fs1 (each 1-512 slots; sequence numbers wrap at 256) followed by
+   TerminateStream (three terminate packets carrying the stream's next sequence numbers) followed by
+   any frames fs2 of a restarted stream (sequence numbers from 0 again): every single frame, of both
+   streams, runs the handler and leaves exactly that frame in the receiver's buffer. *)
+Theorem c07_e131_stream_roundtrip : forall cid name prio u ip fs1 fs2 old,
+  1 <= u -> u <= 65534 -> prio <= 200 ->
+  Forall (fun f => 1 <= len f /\ len f <= 512) fs1 ->
+  Forall (fun f => 1 <= len f /\ len f <= 512) fs2 ->
+  exists t1 s1 pk t3 s3,
+    send_all cid name prio u ip fs1 None (fresh_rx old) = (map (fun f => (true, Some f)) fs1, t1, s1) /\
+    tx_terminate cid name prio u t1 = (pk, None) /\
+    send_all cid name prio u ip fs2 None (deliver_all u ip pk s1)
+      = (map (fun f => (true, Some f)) fs2, t3, s3).
+Proof. intros. apply stream_roundtrip; assumption. Qed.
+Print Assumptions c07_e131_stream_roundtrip.
+
 (* ---- non-vacuity and the pre-fix failures as concrete evaluations of the (fixed) model *)
 Definition ramp (n : nat) : list N := map (fun i => N.of_nat ((i * 7 + 3) mod 256)) (seq 0 n).
 (* 128 distinct slots: the unfixed encoder emitted the count byte 0x80 here *)
@@ -160,4 +179,20 @@ Example ex_e131_len :
   match e131_build false (repeat 7 16) [79;76;65] 100 0 1 false (repeat 9 512) with
   | Some p => len p = 638 /\ e131_handle p 1 true None = R2 (RHandled (Some (repeat 9 512)))
   | None => False end.
+Proof. vm_compute. split; reflexivity. Qed.
+(* what the receiver does with terminate packets that carry a stale sequence number (sender settings
+   removed too early): it keeps the source and drops the restarted stream's first frame *)
+Example ex_stale_terminate :
+  let cid := repeat 1 16 in
+  match tx_send cid [] 100 7 None [9; 9] with
+  | (Some p1, _) =>
+    let s1 := fst (deliver 7 true (fresh_rx None) p1) in
+    match e131_build_opt false cid [] 100 0 7 E131_STREAM_TERMINATED_MASK [] with
+    | Some pt =>
+      let s2 := fst (deliver 7 true s1 pt) in
+      match tx_send cid [] 100 7 None [4; 5] with
+      | (Some p2, _) => deliver 7 true s2 p2 = (s2, false) /\ rx_buf s2 = Some [9; 9]
+      | _ => False end
+    | None => False end
+  | _ => False end.
 Proof. vm_compute. split; reflexivity. Qed.
